@@ -13,6 +13,7 @@
 //   float     every function that does float64 arithmetic or conversion
 //   flag      every read of a proposal flag common.IsProposalNNN() (they read the process-wide chain height)
 //   chainheight every direct common.GetBlockHeight / SetBlockHeight call
+//   global / store / ctx  process-local state touched in functions reachable from VMExecutor.Execute (second pass)
 // and prints Rangers/Generated/NondetSites.lean on stdout.
 package main
 
@@ -163,6 +164,255 @@ func clockContext(stack []ast.Node) string {
 	return "guard=" + guard
 }
 
+
+// ---------------------------------------------------------------- process-local state on the execution path
+//
+// Second pass: a static call graph over the whole packages (interface calls resolved by method
+// name, an over-approximation) rooted at VMExecutor.Execute, and in every reachable function
+//   global  reads of package-level variables (loggers and error values excepted)
+//   store   method calls on side stores held in struct fields of core / service / executor /
+//           middleware types (LevelDB handles, LRU caches, sync.Map, gmap, plain map fields)
+//   ctx     reads / writes / deletes of entries of the executor's context map
+
+type fnInfo struct {
+	key     string
+	rel     string
+	name    string
+	callees map[string]bool // function keys
+	byName  map[string]bool // interface / unresolved method names
+	sites   []site
+}
+
+var procPkgs = []string{"src/common", "src/core", "src/executor", "src/service", "src/storage/account", "src/middleware/types", "src/middleware", "src/vm"}
+
+func funcKey(f *types.Func) (string, bool) {
+	sig, _ := f.Type().(*types.Signature)
+	pk := ""
+	if f.Pkg() != nil {
+		pk = f.Pkg().Path()
+	}
+	if sig != nil && sig.Recv() != nil {
+		t := sig.Recv().Type()
+		if p, ok := t.(*types.Pointer); ok {
+			t = p.Elem()
+		}
+		if n, ok := t.(*types.Named); ok {
+			if _, isIface := n.Underlying().(*types.Interface); isIface {
+				return f.Name(), false
+			}
+			return pk + "." + n.Obj().Name() + "." + f.Name(), true
+		}
+		return f.Name(), false
+	}
+	return pk + "." + f.Name(), true
+}
+
+func isStoreType(t types.Type) string {
+	s := t.String()
+	for _, k := range []string{"db.LDBDatabase", "db.PrefixedDatabase", "db.Database", "lru.Cache", "lru.ARCCache", "sync.Map", "gmap", "MemDatabase"} {
+		if strings.Contains(s, k) {
+			return k
+		}
+	}
+	if _, ok := t.Underlying().(*types.Map); ok {
+		return "map"
+	}
+	return ""
+}
+
+func procStatePass(fset *token.FileSet, imp types.Importer) []site {
+	written := map[string]bool{} // package-level variables assigned inside some function body
+	funcs := map[string]*fnInfo{}
+	methodsByName := map[string][]string{}
+	for _, dir := range procPkgs {
+		pkgs, err := parser.ParseDir(fset, dir, func(fi os.FileInfo) bool {
+			return !strings.HasSuffix(fi.Name(), "_test.go") && !strings.Contains(fi.Name(), "verif")
+		}, 0)
+		if err != nil {
+			continue
+		}
+		for _, pkg := range pkgs {
+			var files []*ast.File
+			var names []string
+			for n := range pkg.Files {
+				names = append(names, n)
+			}
+			sort.Strings(names)
+			for _, n := range names {
+				files = append(files, pkg.Files[n])
+			}
+			info := &types.Info{Types: map[ast.Expr]types.TypeAndValue{}, Uses: map[*ast.Ident]types.Object{}, Defs: map[*ast.Ident]types.Object{}, Selections: map[*ast.SelectorExpr]*types.Selection{}}
+			conf := types.Config{Importer: imp, FakeImportC: true, Error: func(err error) {}}
+			pkgPath := "com.tuntun.rangers/node/" + dir
+			conf.Check(pkgPath, fset, files, info)
+			ownerOK := dir == "src/core" || dir == "src/service" || dir == "src/executor" || dir == "src/middleware"
+			for i, f := range files {
+				rel := dir + "/" + filepath.Base(names[i])
+				for _, d := range f.Decls {
+					fd, ok := d.(*ast.FuncDecl)
+					if !ok || fd.Body == nil {
+						continue
+					}
+					obj, _ := info.Defs[fd.Name].(*types.Func)
+					if obj == nil {
+						continue
+					}
+					key, _ := funcKey(obj)
+					disp := fd.Name.Name
+					if fd.Recv != nil && len(fd.Recv.List) > 0 {
+						disp = strings.TrimPrefix(exprString(fset, fd.Recv.List[0].Type), "*") + "." + disp
+						methodsByName[fd.Name.Name] = append(methodsByName[fd.Name.Name], key)
+					}
+					fi := &fnInfo{key: key, rel: rel, name: disp, callees: map[string]bool{}, byName: map[string]bool{}}
+					funcs[key] = fi
+					seenGlobal := map[string]bool{}
+					lhs := map[ast.Expr]bool{}
+					ast.Inspect(fd.Body, func(n ast.Node) bool {
+						switch x := n.(type) {
+						case *ast.AssignStmt:
+							for _, l := range x.Lhs {
+								lhs[l] = true
+								var id *ast.Ident
+								switch t := l.(type) {
+								case *ast.Ident:
+									id = t
+								case *ast.SelectorExpr:
+									id = t.Sel
+									if root, ok := t.X.(*ast.Ident); ok { // global.field = …
+										if v, ok := info.Uses[root].(*types.Var); ok && v.Pkg() != nil && v.Parent() == v.Pkg().Scope() {
+											written[v.Pkg().Name()+"."+v.Name()] = true
+										}
+									}
+								}
+								if id != nil {
+									if v, ok := info.Uses[id].(*types.Var); ok && v.Pkg() != nil && v.Parent() == v.Pkg().Scope() {
+										written[v.Pkg().Name()+"."+v.Name()] = true
+									}
+								}
+							}
+						case *ast.CallExpr:
+							// callee resolution
+							var id *ast.Ident
+							switch fn := x.Fun.(type) {
+							case *ast.Ident:
+								id = fn
+							case *ast.SelectorExpr:
+								id = fn.Sel
+							}
+							if id != nil {
+								if tf, ok := info.Uses[id].(*types.Func); ok {
+									if k, static := funcKey(tf); static {
+										fi.callees[k] = true
+									} else {
+										fi.byName[k] = true
+									}
+								} else if _, isSel := x.Fun.(*ast.SelectorExpr); isSel && info.Uses[id] == nil {
+									fi.byName[id.Name] = true
+								}
+								if id.Name == "delete" && len(x.Args) == 2 {
+									if tv, ok := info.Types[x.Args[0]]; ok && tv.Type != nil && tv.Type.String() == "map[string]interface{}" && strings.HasSuffix(exprString(fset, x.Args[0]), "context") {
+										if bl, ok := x.Args[1].(*ast.BasicLit); ok {
+											fi.sites = append(fi.sites, site{"ctx", rel, disp, "delete " + strings.Trim(bl.Value, "\"")})
+										}
+									}
+								}
+							}
+							// side store access: recv.field.Method(...)
+							if se, ok := x.Fun.(*ast.SelectorExpr); ok && ownerOK {
+								if fsel, ok := se.X.(*ast.SelectorExpr); ok {
+									if sel := info.Selections[fsel]; sel != nil && sel.Kind() == types.FieldVal {
+										if k := isStoreType(sel.Type()); k != "" {
+											fi.sites = append(fi.sites, site{"store", rel, disp, exprString(fset, fsel) + "." + se.Sel.Name + " [" + k + "]"})
+										}
+									}
+								}
+							}
+						case *ast.IndexExpr:
+							if tv, ok := info.Types[x.X]; ok && tv.Type != nil {
+								if tv.Type.String() == "map[string]interface{}" && strings.HasSuffix(exprString(fset, x.X), "context") {
+									if bl, ok := x.Index.(*ast.BasicLit); ok {
+										mode := "read "
+										if lhs[x] {
+											mode = "write "
+										}
+										fi.sites = append(fi.sites, site{"ctx", rel, disp, mode + strings.Trim(bl.Value, "\"")})
+									}
+								} else if fsel, ok := x.X.(*ast.SelectorExpr); ok && ownerOK {
+									// plain map field of a core/service/executor struct
+									if sel := info.Selections[fsel]; sel != nil && sel.Kind() == types.FieldVal {
+										if _, isMap := sel.Type().Underlying().(*types.Map); isMap {
+											fi.sites = append(fi.sites, site{"store", rel, disp, exprString(fset, fsel) + "[] [map]"})
+										}
+									}
+								}
+							}
+						case *ast.Ident:
+							if v, ok := info.Uses[x].(*types.Var); ok && v.Pkg() != nil && v.Parent() == v.Pkg().Scope() {
+								ts := v.Type().String()
+								if strings.HasSuffix(ts, "log.Logger") || ts == "error" {
+									return true
+								}
+								pn := v.Pkg().Name() + "." + v.Name()
+								if !seenGlobal[pn] {
+									seenGlobal[pn] = true
+									fi.sites = append(fi.sites, site{"global", rel, disp, pn})
+								}
+							}
+						}
+						return true
+					})
+				}
+			}
+		}
+	}
+	// reachability from the block executor
+	reach := map[string]bool{}
+	var todo []string
+	for k := range funcs {
+		if strings.HasSuffix(k, "/src/core.VMExecutor.Execute") {
+			todo = append(todo, k)
+		}
+	}
+	for len(todo) > 0 {
+		k := todo[len(todo)-1]
+		todo = todo[:len(todo)-1]
+		if reach[k] {
+			continue
+		}
+		reach[k] = true
+		fi := funcs[k]
+		if fi == nil {
+			continue
+		}
+		for c := range fi.callees {
+			if !reach[c] {
+				todo = append(todo, c)
+			}
+		}
+		for n := range fi.byName {
+			for _, c := range methodsByName[n] {
+				if !reach[c] {
+					todo = append(todo, c)
+				}
+			}
+		}
+	}
+	var out []site
+	for k, fi := range funcs {
+		if !reach[k] {
+			continue
+		}
+		for _, st := range fi.sites {
+			// a package-level variable nobody assigns in a function body is a constant table
+			if st.kind == "global" && !written[st.detail] {
+				continue
+			}
+			out = append(out, st)
+		}
+	}
+	return out
+}
+
 func main() {
 	repo := "."
 	for _, a := range os.Args[1:] {
@@ -286,6 +536,7 @@ func main() {
 			}
 		}
 	}
+	sites = append(sites, procStatePass(fset, imp)...)
 	// stable order, ordinal for repeated identical descriptions
 	sort.SliceStable(sites, func(i, j int) bool {
 		a, b := sites[i], sites[j]
